@@ -238,6 +238,16 @@ def gen_cases(ck):
     E(evpkt(0, 1, [(7, 7, big[:40000]), (8, 8, big[:25000])], sl=65535))
     for sz in (1, 11, 12, 13):   # event_size field below / at the header size
         E(bytes(EV_MAGIC + le(0, 2) + le(0x0C00, 2) + le(24, 2) + le(1, 2) + le(sz, 2) + le(5, 2) + le(9, 8) + [0] * 12))
+    # sized events followed by an entry whose event_size is 0 ("the rest of the SCD"): announced rest 0..26
+    # bytes (below, at and above one event header), the buffer holding that many bytes or more
+    for pre in ([(1, 1, b"ab")], [(1, 1, b"")], [(1, 1, b"ab"), (2, 2, b"xyz")]):
+        sized = []
+        for eid, ts, d in pre:
+            sized += le(12 + len(d), 2) + le(eid, 2) + le(ts, 8) + list(d)
+        for rest in range(0, 27):
+            for extra in (0, 1, 11, 12, 13, 30):
+                tail = (le(0, 2) + le(0x77, 2) + le(0x0102030405060708, 8) + [0xC0 + i for i in range(40)])[:rest + extra]
+                E(bytes(EV_MAGIC + le(0, 2) + le(0x0C00, 2) + le(len(sized) + rest, 2) + le(3, 2) + sized + tail))
     for b in ebase[:6]:
         for n in range(len(b) + 1):
             E(b[:n])
